@@ -12,11 +12,11 @@
      SevenZipCompressor.compress          compressor.py l.893-908 (blocks already fed stay in the stream)
      close/_write_flush/flush_archive     l.1148-1164, 689-694, 1561-1575
 
-   The one quirk everything hinges on: the member is REGISTERED (three appends) before
-   Worker.archive opens / reads its source, and Worker.archive works on
-   files[worker.current_file_index], not on the member just registered.  When the source cannot be
-   opened or read, current_file_index is not advanced: the next call works on the failed member
-   again.
+   The member is registered (three appends) before Worker.archive opens / reads its source, and
+   Worker.archive works on files[worker.current_file_index].  Since the repair of the poisoning
+   defect (SevenZipFile._register_and_archive) a failure of Worker.archive pops the three lists
+   again, so that current_file_index = len(files) holds between calls.  What cannot be undone:
+   the bytes of the source that were already fed to the folder's compressor when read() raised.
 
    Representation: the Python lists  files / header.files_info.files / emptyfiles  (always equal
    in length and content) are  map fst ws_done ++ ws_pend  and  worker.current_file_index  is
@@ -102,19 +102,16 @@ Inductive rd := RdOk (bs : bytes) (sk : nat) (f' : wfile) | RdFail (consumed : b
 
 Definition is_kdata (f : wfile) : bool := match w_kind f with KData => true | _ => false end.
 
-(* Worker.write / Worker.writestr up to and including compressor.compress(fd, fp).
-   [anydata]: some registered member came from writestr/writef (its "origin" is None) *)
-Definition read_src (anydata : bool) (f : wfile) : rd :=
+(* Worker.write / Worker.writestr up to and including compressor.compress(fd, fp) *)
+Definition read_src (f : wfile) : rd :=
   match w_kind f with
   | KDir => RdOk [] O f
   | KLink =>
-      (* _find_link_target: helpers.readlink raises (EINVAL for a dangling link); then the loop
-         `for j in range(len(self.files)): if linkname == self.files[j].origin.as_posix()` raises
-         AttributeError on the first member without origin (the link text is assumed not to be the
-         path of an archived source, so the loop never breaks early); then BytesIO(target) *)
+      (* _find_link_target: helpers.readlink raises (EINVAL for a dangling link); a relative link
+         text is kept as it is (members without origin are skipped); then BytesIO(target) *)
       match w_fault f with
       | Some (mkFault FOpen _) => RdFail [] (disarm f)
-      | _ => if anydata then RdFail [] f else RdOk (w_data f) O f
+      | _ => RdOk (w_data f) O f
       end
   | KFile =>                        (* f.origin.open(): every attempt starts at offset 0 *)
       match w_fault f with
@@ -150,7 +147,7 @@ Definition archive (st : wstate) : wstate * wout :=
         (mkState D (ws_init st) (ws_done st ++ [(f, O)]) p (ws_last st) (ws_subs st) (ws_stream st) (ws_garb st),
          Returned)
       else
-        match read_src (existsb is_kdata (ws_files st)) f with
+        match read_src f with
         | RdOk bs sk f' =>                                   (* _after_write; last_file_index; current_file_index += 1 *)
             (mkState D (ws_init st) (ws_done st ++ [(f', sk)]) p (Z.of_nat (length (ws_done st)))
                      (ws_subs st ++ [(length bs, dg bs)]) (ws_stream st ++ bs) (ws_garb st), Returned)
@@ -165,6 +162,16 @@ Definition set_init (st : wstate) : wstate :=
 Definition register (st : wstate) (f : wfile) : wstate :=
   mkState D (ws_init st) (ws_done st) (ws_pend st ++ [f]) (ws_last st) (ws_subs st) (ws_stream st) (ws_garb st).
 
+(* SevenZipFile._register_and_archive: the three appends, Worker.archive, and on any exception the
+   three pops (current_file_index was not advanced by the failed archive) *)
+Definition pop_pend (st : wstate) : wstate :=
+  mkState D (ws_init st) (ws_done st) (removelast (ws_pend st)) (ws_last st) (ws_subs st) (ws_stream st) (ws_garb st).
+Definition reg_archive (st : wstate) (f : wfile) : wstate * wout :=
+  match archive (register st f) with
+  | (st', Returned) => (st', Returned)
+  | (st', Raised) => (pop_pend st', Raised)
+  end.
+
 Definition fault_kind (s : src) : option fkind := option_map f_kind (s_fault s).
 
 (* SevenZipFile.write *)
@@ -172,7 +179,7 @@ Definition call_write (st : wstate) (s : src) : wstate * wout :=
   match fault_kind s with
   | Some FName => (st, Raised)                            (* _sanitize_archive_arcname raises first *)
   | Some FStat => (set_init st, Raised)                   (* header.initialize() precedes _make_file_info *)
-  | _ => archive (register (set_init st) (file_of_src AWrite s))
+  | _ => reg_archive (set_init st) (file_of_src AWrite s)
   end.
 
 (* SevenZipFile.writestr / writef *)
@@ -180,7 +187,7 @@ Definition call_data (a : api) (st : wstate) (s : src) : wstate * wout :=
   match fault_kind s with
   | Some FName => (st, Raised)
   | Some FStat => (st, Raised)                            (* argument checks precede header.initialize() *)
-  | _ => archive (register (set_init st) (file_of_src a s))
+  | _ => reg_archive (set_init st) (file_of_src a s)
   end.
 
 (* one member visited by _writeall: is_symlink()/is_file()/is_dir() come before write() *)
@@ -282,59 +289,62 @@ Definition all_pass (ms : list (Z * mres)) : bool := negb (existsb is_crc ms).
 Definition full_member (f : wfile) : Z * mres :=
   (w_name f, if is_dir f then MDir else MData (w_data f)).
 
-Definition has_fault (s : src) : bool := match s_fault s with Some _ => true | None => false end.
+(* does the fault of the source fire when it is handed to this entry point?  (an open fault on a
+   directory, a read fault at or behind the end of the data, any open/read fault on the BytesIO
+   that writestr makes itself, never fire) *)
+Definition fires (a : api) (s : src) : bool :=
+  match s_fault s with
+  | None => false
+  | Some (mkFault k _) =>
+      match k with
+      | FStat => true
+      | FName => true
+      | FOpen => match a with
+                 | AWrite => match s_kind s with KDir => false | _ => true end
+                 | _ => false
+                 end
+      | FRead n => (n <? length (s_data s))%nat &&
+                   match a with
+                   | AWrite => match s_kind s with KFile => true | KData => true | _ => false end
+                   | AWritef => true
+                   | AWritestr => false
+                   end
+      end
+  end.
 
-(* members of the tree before the first faulty one *)
+(* the failure leaves bytes of the source in the compressor *)
+Definition dirty (a : api) (s : src) : bool :=
+  fires a s && match s_fault s with Some (mkFault (FRead n) _) => (0 <? n)%nat | _ => false end.
+
+(* members of the tree before the first failing one *)
 Fixpoint ok_prefix (l : list src) : list src :=
   match l with
   | [] => []
-  | s :: r => if has_fault s then [] else s :: ok_prefix r
+  | s :: r => if fires AWrite s then [] else s :: ok_prefix r
   end.
 
 (* the members a call that behaves as the property demands leaves in the archive
    (writeall is the sequence of its write() calls) *)
 Definition expected (op : wop) : list (Z * mres) :=
   match op with
-  | OCall a s => if has_fault s then [] else [full_member (file_of_src a s)]
+  | OCall a s => if fires a s then [] else [full_member (file_of_src a s)]
   | OWriteall true _ => []
   | OWriteall false l => map (fun s => full_member (file_of_src AWrite s)) (ok_prefix l)
   end.
 
 Definition expected_out (op : wop) : wout :=
   match op with
-  | OCall _ s => if has_fault s then Raised else Returned
+  | OCall a s => if fires a s then Raised else Returned
   | OWriteall true _ => Raised
-  | OWriteall false l => if existsb has_fault l then Raised else Returned
+  | OWriteall false l => if existsb (fires AWrite) l then Raised else Returned
   end.
 
-Definition pre_fault (k : fkind) : bool := match k with FStat | FName => true | _ => false end.
-Definition pre_only_src (s : src) : bool :=
-  match fault_kind s with None => true | Some k => pre_fault k end.
-Definition pre_only (op : wop) : bool :=
+(* histories none of whose failures leaves bytes behind: every fault except read() raising
+   after k > 0 bytes *)
+Definition clean_op (op : wop) : bool :=
   match op with
-  | OCall _ s => pre_only_src s
-  | OWriteall _ l => forallb pre_only_src l
-  end.
-
-(* _find_link_target fails on a valid link once a writestr/writef member is registered: histories
-   free of that second quirk *)
-Definition is_link_src (s : src) : bool := match s_kind s with KLink => true | _ => false end.
-Definition op_links_ok (seen : bool) (op : wop) : bool :=
-  match op with
-  | OCall AWrite s => negb (seen && is_link_src s)
-  | OCall _ _ => true
-  | OWriteall _ l => negb (seen && existsb is_link_src l)
-  end.
-Definition op_adds_data (op : wop) : bool :=
-  match op with
-  | OCall AWrite _ => false
-  | OCall _ s => negb (has_fault s)
-  | OWriteall _ _ => false
-  end.
-Fixpoint links_ok (seen : bool) (ops : list wop) : bool :=
-  match ops with
-  | [] => true
-  | op :: r => op_links_ok seen op && links_ok (seen || op_adds_data op) r
+  | OCall a s => negb (dirty a s)
+  | OWriteall _ l => forallb (fun s => negb (dirty AWrite s)) l
   end.
 
 (* the sources of a history with the entry point that takes them *)
@@ -344,24 +354,9 @@ Definition op_srcs (op : wop) : list (api * src) :=
   | OWriteall _ l => map (fun s => (AWrite, s)) l
   end.
 
-(* members a call registers but whose call raised: their data must never enter the archive *)
-Definition failed_names (op : wop) (o : wout) : list Z :=
-  match o with
-  | Returned => []
-  | Raised => match op with
-              | OCall _ s => [s_name s]
-              | OWriteall _ l => map s_name (filter has_fault l)
-              end
-  end.
-
-Fixpoint failed_of (ops : list wop) (outs : list wout) : list Z :=
-  match ops, outs with
-  | op :: r, o :: os => failed_names op o ++ failed_of r os
-  | _, _ => []
-  end.
-
-Definition has_data (ms : list (Z * mres)) (n : Z) : bool :=
-  existsb (fun m => (fst m =? n) && match snd m with MData _ => true | _ => false end) ms.
+(* a registered member and what a reader may get for it: the complete bytes of the source, or an error *)
+Definition right_or_crc (f : wfile) (m : Z * mres) : Prop :=
+  fst m = w_name f /\ (snd m = snd (full_member f) \/ snd m = MCrc).
 
 End Model.
 
